@@ -12,6 +12,7 @@ import (
 	v1 "github.com/google/go-containerregistry/pkg/v1"
 
 	apkfs "chainguard.dev/apko/pkg/apk/fs"
+	"chainguard.dev/apko/pkg/options"
 )
 
 // VerifC06File is what walkFS yields for one path (verification hook, C06).
@@ -45,4 +46,14 @@ func VerifC06WriteLayer(ctx context.Context, out *os.File, fsys apkfs.FullFS) (v
 		return nil, err
 	}
 	return lw.finalize()
+}
+
+// VerifC06LayerEmitter returns a function that runs the real ImageLayoutToLayer
+// of ONE build context over fsys: tarballPath "" means the default file in
+// tempDir; the context remembers the path it wrote, as a real build does.
+func VerifC06LayerEmitter(fsys apkfs.FullFS, tarballPath, tempDir string) func(ctx context.Context) (string, v1.Layer, error) {
+	bc := &Context{o: options.Default, fs: fsys}
+	bc.o.TempDirPath = tempDir
+	bc.o.TarballPath = tarballPath
+	return bc.ImageLayoutToLayer
 }
